@@ -182,7 +182,7 @@ def oracle(ctx, seeds=None):
                              dict(bc=name, kind='history', gamma=g)); break
     # ---- 2D boundary states as produced by the pipeline (fvm2dcart.rhs): inlets with an oblique angle on every side
     import cfg2d
-    for i in range(ctx.n(24, 300)):
+    for i in range(ctx.n(36, 360)):
         side = ['left', 'right', 'bottom', 'top'][i % 4]
         cfg = cfg2d.rand_config2d(ctx.rng, per=True, nx=int(ctx.rng.integers(1, 5)), ny=int(ctx.rng.integers(1, 5)))
         g = cfg['gamma']
@@ -190,6 +190,11 @@ def oracle(ctx, seeds=None):
         base = {'left': 0.0, 'right': 180.0, 'bottom': 90.0, 'top': -90.0}[side]
         ang = float(base + ctx.rng.choice([0.0, 30.0, -20.0, 45.0, 60.0]))
         inl = {'type': 'insup', 'ptot': pmean * 2.5, 'rttot': pmean / rmean * 1.3, 'p': pmean * 0.9, 'angle': ang}
+        variant = (i // 4) % 3        # 0: insup with an angle; 1: insup without angle (normal inflow); 2: insub (normal inflow)
+        if variant == 1:
+            del inl['angle']; ang = base
+        elif variant == 2:
+            inl = {'type': 'insub', 'ptot': float(np.max(cfg['prim'][3])) * 1.6, 'rttot': pmean / rmean * 1.3}; ang = base
         other = {'left': 'right', 'right': 'left', 'bottom': 'top', 'top': 'bottom'}[side]
         cfg['bc'] = {t: {'type': 'per'} for t in ('left', 'right', 'bottom', 'top')}
         cfg['bc'][side] = inl; cfg['bc'][other] = {'type': 'outsup'}
@@ -200,19 +205,19 @@ def oracle(ctx, seeds=None):
             arr = disc.pL if msh.bcface_orientation(side) == 'inward' else disc.pR
             return np.asarray(arr[0])[idx], np.asarray(arr[1])[:, idx], np.asarray(arr[2])[idx]
         ok, out = impl.guarded(run)
-        res.case(('2d-pipeline-insup', side, ang - base))
-        rp = dict(bc='2d/insup-through-rhs', side=side, angle=ang, cfg2d=cfg)
+        res.case(('2d-pipeline-inlet', inl['type'], 'angle' in inl, side, ang - base))
+        rp = dict(bc='2d/%s-through-rhs' % inl['type'], side=side, angle=ang if 'angle' in inl else None, cfg2d=cfg)
         if not ok:
             res.fail('2d/insup:pipeline-raised', out, rp); continue
         r1, V1, p1 = out
         a = np.deg2rad(ang)
         for j in range(len(r1)):
             pt, rt = totals(g, float(r1[j]), float(np.hypot(V1[0, j], V1[1, j])), float(p1[j]))
-            if abs(pt - inl['ptot']) > 1e-9 * inl['ptot'] or abs(rt - inl['rttot']) > 1e-9 * inl['rttot'] or abs(p1[j] - inl['p']) > 1e-12 * inl['p']:
+            if abs(pt - inl['ptot']) > 1e-9 * inl['ptot'] or abs(rt - inl['rttot']) > 1e-9 * inl['rttot'] or ('p' in inl and abs(p1[j] - inl['p']) > 1e-12 * inl['p']):
                 res.fail('2d/insup:pipeline-totals:%s' % side, "boundary face state produced by fvm2d.rhs on side %s with angle %r: ptot %r (imposed %r), rttot %r (imposed %r)" % (side, ang, pt, inl['ptot'], rt, inl['rttot']), rp); break
             vm = float(np.hypot(V1[0, j], V1[1, j]))
             if abs(V1[0, j] * (-np.sin(a)) + V1[1, j] * np.cos(a)) > 1e-9 * (vm + 1e-300) or V1[0, j] * np.cos(a) + V1[1, j] * np.sin(a) < 0:
-                res.fail('2d/insup:pipeline-direction:%s' % side, "velocity %r is not along the requested angle %r" % (V1[:, j].tolist(), ang), rp); break
+                res.fail('2d/%s:pipeline-direction:%s' % (inl['type'], side), "velocity %r is not along %s" % (V1[:, j].tolist(), ("the requested angle %r" % ang) if 'angle' in inl else "the inward normal of the %s side (the flow must enter the domain)" % side), rp); break
     # shallow water
     ms = impl.shallowwater.shallowwater1d()
     for name in sorted(ms._bcdict.dict.keys()):
@@ -254,6 +259,41 @@ def oracle(ctx, seeds=None):
                     res.fail('pipeline:%s:%s' % (bc['type'], side), "the %s boundary state of the 1D pipeline (%s, %r) is not the '%s' kernel applied to the reconstructed inner face state: component %d is %r, kernel gives %r" %
                              (side, model, cfg['scheme'], bc['type'], k, g_, e_), dict(cfg=cfg, side=side))
                     break
+    # ---- "every parameter set": the parameter dictionary in force WHEN THE OPERATOR IS EVALUATED (a back pressure or inlet total
+    #      pressure ramped between calls by updating the caller's dictionary in place)
+    for i in range(ctx.n(16, 160)):
+        kind = ['outsub', 'insub', 'outsub_nrcbc', 'insup', 'dirichlet', 'outsub_qtot', 'insub_cbc', 'outsub_rh'][i % 8]
+        cfg = _c1.rand_config(ctx.rng, model='euler', per=False, n=int(ctx.rng.integers(2, 7)), smooth=True, units=False, scheme=['extrapol1'])
+        W_ = cfg['prim']; right = bool(i % 2) if kind.startswith('out') or kind == 'dirichlet' else False
+        idx = -1 if right else 0
+        own = dict(_c1.euler_bc_params(ctx.rng, kind, cfg['gamma'], (W_[0][idx], W_[1][idx], W_[2][idx])))       # the caller's own dictionary
+        if 'prim' in own:
+            own['prim'] = list(own['prim'])
+        oth = {'type': 'outsup'}
+        def run():
+            mod = impl.pool('euler1d', gamma=cfg['gamma']); msh = _c1.make_mesh(cfg['mesh'])
+            disc = impl.modeldisc.fvm(mod, msh, impl.xnum.extrapol1(), numflux='hlle', bcL=oth if right else own, bcR=own if right else oth)
+            f = impl.field.fdata(mod, msh, [np.array(x, dtype=float) for x in mod.prim2cons([np.array(w, dtype=float) for w in W_])])
+            disc.rhs(f)
+            if 'p' in own: own['p'] = own['p'] * 0.85
+            if 'ptot' in own: own['ptot'] = own['ptot'] * 1.15
+            if 'prim' in own: own['prim'][0] = own['prim'][0] * 1.2
+            disc.rhs(f)
+            n_ = cfg['n']
+            ghost = [float((disc.pR if right else disc.pL)[k][n_ if right else 0]) for k in range(3)]
+            inner = [np.array([float((disc.pL if right else disc.pR)[k][n_ if right else 0])]) for k in range(3)]
+            exp = mod.namedBC(kind, 1 if right else -1, inner, dict(own))
+            return ghost, [float(np.ravel(np.asarray(x, dtype=float))[0]) for x in exp]
+        ok, out = impl.guarded(run)
+        res.case(('parameters-updated-in-place', kind, right))
+        rp = dict(kind='parameters-updated-in-place', bc=kind, side='right' if right else 'left', cfg=cfg)
+        if not ok:
+            res.fail('pipeline:%s:raised' % kind, out, rp); continue
+        ghost, exp = out
+        if not all(np.isfinite(exp)):
+            continue
+        if not all(abs(a_ - b_) <= 1e-12 * (abs(b_) + 1e-300) for a_, b_ in zip(ghost, exp)):
+            res.fail('pipeline:%s:parameters-updated-in-place' % kind, "after the caller updated its '%s' dictionary in place, the boundary state of the next evaluation is %r; the kernel with the dictionary now in force gives %r" % (kind, ghost, exp), rp)
     return res
 
 
